@@ -98,6 +98,25 @@ def check_vector(ctx, item, want, tag="vector"):
                                what=f"{tag}: an object holding {desc(item)} decodes {alt[:16].hex()} to a value that re-encodes as "
                                     f"{again[:16].hex()} (equal to a fresh object's value: {same})"))
             break
+    # encoding is a function of the CURRENT value: encode, change one element through the element object itself, encode again
+    if f == "L" and isinstance(fmt, list) and len([x for x in fmt if not isinstance(x, str)]) == 1 and len(item["v"]) >= 2 \
+            and item["v"][0] != item["v"][-1]:
+        try:
+            obj2, _ = e5bind.vbuild(item)
+            first = bytes(obj2.encode())
+            obj2[0].set(e5bind.vvalue(item["v"][-1]))
+            second = bytes(obj2.encode())
+            fresh3, _ = e5bind.vbuild({"f": "L", "v": [item["v"][-1]] + item["v"][1:]})
+            want2 = bytes(fresh3.encode())
+        except Exception as exc:  # noqa: BLE001
+            ctx.violation(dict(base, check="encode-after-element-change", error=type(exc).__name__,
+                               what=f"{tag}: changing element 0 of {desc(item)} through the element object raised {exc!r}"))
+            return
+        if first != want or second != want2:
+            ctx.violation(dict(base, check="encode-after-element-change", got=second[:40].hex(), want=want2[:40].hex(), stale=second == first,
+                               what=f"{tag}: after element 0 of {desc(item)} was set to the value of the last element, encode() gives "
+                                    f"{second[:20].hex()} instead of {want2[:20].hex()} (stale bytes of the old value: {second == first})"))
+            return
     # untyped decode (Dynamic's type list has no JIS-8)
     if '"J"' in json.dumps(item):
         return
